@@ -321,6 +321,20 @@ class TextFormat:
         left_side_tokens = tuple(it.takewhile(lambda t: t.token != '.', tokens_iter))
         right_side_tokens = tuple(tokens_iter)
 
+        if thousands == ',':
+            # the zeros the format asks for are grouped as digits are:
+            # 0,000 shows 12 as 0,012
+            places = ''.join(t.token for t in left_side_tokens
+                             if t.type == self.TokenType.NUMBER)
+            wanted = len(places) - places.index('0') if '0' in places else 0
+            sign = '-' if left_side.startswith('-') else ''
+            digits = left_side.replace(thousands, '').lstrip('-')
+            if len(digits) < wanted:
+                digits = digits.zfill(wanted)
+                left_side = sign + thousands.join(reversed([
+                    digits[max(i - 3, 0):i]
+                    for i in range(len(digits), 0, -3)]))
+
         left = tuple(self._number_token_converter(left_side_tokens, left_side, left_side=True))
         if tokenized.decimal:
             right_side = "".join(self._number_token_converter(right_side_tokens, right_side))
